@@ -1,0 +1,15 @@
+//go:build verif
+// +build verif
+
+package gmtls
+
+// Hook for the verification harness (build tag "verif" only): a copy of a cached client session that claims
+// another cipher suite, so that the stock client offers the session's ticket in a ClientHello that does not
+// list the suite sealed in the ticket (what a foreign client may do).
+
+// VerifSessionWithSuite returns a copy of cs whose remembered cipher suite is replaced; the ticket is kept.
+func VerifSessionWithSuite(cs *ClientSessionState, suite uint16) *ClientSessionState {
+	c := *cs
+	c.cipherSuite = suite
+	return &c
+}
